@@ -97,6 +97,19 @@ func init() {
 			{ID: "C06-D2-clash-returns-nil", File: "core/dutydb/memory.go", Expect: "D2",
 				Old: "\t\t\treturn errors.New(\"clashing sync contributions\")\n",
 				New: "\t\t\treturn nil // tolerated\n"},
+			// --- w5: a query is answered only from the entry stored under its own key (D4 d)
+			{ID: "C06-D4-agg-fallback-without-committee", File: "core/dutydb/memory.go", Expect: "D4", // fall-back lookup under a rebuilt key with a field dropped
+				Old: "\t\tvalue, ok := db.aggDuties[query.Key]\n\t\tif !ok {\n",
+				New: "\t\tvalue, ok := db.aggDuties[query.Key]\n\t\tif !ok {\n\t\t\tvalue, ok = db.aggDuties[aggKey{Slot: query.Key.Slot, Root: query.Key.Root}]\n\t\t}\n\n\t\tif !ok {\n"},
+			{ID: "C06-D4-contrib-lookup-ignores-root", File: "core/dutydb/memory.go", Expect: "D4", // the only lookup uses a key that is not the query's
+				Old: "\t\tcontribution, ok := db.contribDuties[query.Key]\n",
+				New: "\t\tcontribution, ok := db.contribDuties[contribKey{Slot: query.Key.Slot, SubcommIdx: query.Key.SubcommIdx}]\n"},
+			{ID: "C06-D4-pro-answer-when-absent", File: "core/dutydb/memory.go", Expect: "D4", // the send is reachable on the not-found edge
+				Old: "\t\tvalue, ok := db.proDuties[query.Key]\n\t\tif !ok {\n\t\t\tunresolved = append(unresolved, query)\n\t\t\tcontinue\n\t\t}",
+				New: "\t\tvalue, ok := db.proDuties[query.Key]\n\t\tif !ok {\n\t\t\tunresolved = append(unresolved, query)\n\t\t}"},
+			{ID: "C06-D4-att-fallback-previous-slot", File: "core/dutydb/memory.go", Expect: "D4", // fall-back in a nested if, key fields swapped source
+				Old: "\t\tvalue, ok := db.attDuties[query.Key]\n\t\tif !ok {\n",
+				New: "\t\tvalue, ok := db.attDuties[query.Key]\n\t\tif alias, found := db.attDuties[attKey{Slot: query.Key.CommIdx, CommIdx: query.Key.CommIdx}]; !ok && found {\n\t\t\tvalue, ok = alias, true\n\t\t}\n\n\t\tif !ok {\n"},
 			{ID: "C06-D6-new-pubkey-skips-rest", File: "core/dutydb/memory.go", Expect: "D6", // must-pass between consecutive keys
 				Old: "pKey)\n\t}\n\n\t// Store key and value for AwaitAttestation\n\taKey := attKey{",
 				New: "pKey)\n\n\t\treturn nil\n\t}\n\n\t// Store key and value for AwaitAttestation\n\taKey := attKey{"},
@@ -1073,48 +1086,6 @@ type c06Resolver struct {
 	phiSend *ssa.Send    // the send, when the value sent is a variable holding the looked-up value or a zero value
 }
 
-// c06SentLookup: the value sent is the result of a map lookup, possibly held in a variable that is otherwise only
-// assigned zero values (`var value T; if found, ok := m[k]; ok { value = found }`): returns that lookup.
-func c06SentLookup(v ssa.Value) (lk *ssa.Lookup, viaPhi bool) {
-	var found []*ssa.Lookup
-	seen := map[ssa.Value]bool{}
-	ok := true
-	var walk func(v ssa.Value, d int)
-	walk = func(v ssa.Value, d int) {
-		v = an.Unwrap(v)
-		if seen[v] || d > 6 {
-			return
-		}
-		seen[v] = true
-		switch x := v.(type) {
-		case *ssa.Extract:
-			if l, isLk := x.Tuple.(*ssa.Lookup); isLk && x.Index == 0 {
-				found = append(found, l)
-				return
-			}
-			ok = false
-		case *ssa.Lookup:
-			found = append(found, x)
-		case *ssa.Const:
-			if !c06ZeroConst(x) {
-				ok = false
-			}
-		case *ssa.Phi:
-			viaPhi = true
-			for _, e := range x.Edges {
-				walk(e, d+1)
-			}
-		default:
-			ok = false
-		}
-	}
-	walk(v, 0)
-	if !ok || len(found) != 1 {
-		return nil, false
-	}
-	return found[0], viaPhi
-}
-
 func c06D4(c *rt.Ctx, m *c06Model) {
 	resolvers := c06FindResolvers(m)
 	if len(resolvers) != 4 {
@@ -1577,6 +1548,17 @@ func c06D4(c *rt.Ctx, m *c06Model) {
 		default:
 			c.Unsure(name, r.fn.Pos(), why)
 		}
+		// (d) a query is answered only with the value looked up under its own key, on the edge where it was found
+		st, why = c06ResolverAnswers(m, r)
+		name = an.FuncName(r.fn) + " answers a query only from its own key"
+		switch st {
+		case rt.OK:
+			c.Good(name, r.fn.Pos(), "")
+		case rt.Violation:
+			c.Bad(name, r.fn.Pos(), why)
+		default:
+			c.Unsure(name, r.fn.Pos(), why)
+		}
 	}
 }
 
@@ -1838,12 +1820,24 @@ func c06FindResolvers(m *c06Model) []*c06Resolver {
 				if !m.elemOf(snd.Chan, fr, l, lfr) {
 					continue
 				}
-				lk, viaPhi := c06SentLookup(snd.X)
-				if lk == nil || !an.IsMapType(lk.X.Type()) {
-					continue
+				// the answer comes from a data map: the map of the lookup made under the query's own key when there is
+				// one, otherwise of the first lookup the value sent can come from (which key it uses is judged by (d))
+				srcs, viaPhi := c06SentSources(m, snd.X, fr)
+				dk, ownFound := "", false
+				for _, s := range srcs {
+					if s.lk == nil || !an.IsMapType(s.lk.X.Type()) {
+						continue
+					}
+					k, ok := m.fieldOf(s.lk.X, s.fr)
+					if !ok || !c06IsData(k) {
+						continue
+					}
+					isOwn := m.elemOf(s.lk.Index, s.fr, l, lfr)
+					if dk == "" || (isOwn && !ownFound) {
+						dk, ownFound = k, isOwn
+					}
 				}
-				dk, ok := m.fieldOf(lk.X, fr)
-				if !ok || !c06IsData(dk) || !m.elemOf(lk.Index, fr, l, lfr) {
+				if dk == "" {
 					continue
 				}
 				res := &c06Resolver{fn: fn, queries: qk, data: dk, fr: lfr, loop: l, backs: backs[qk], sendFr: fr, sendAt: sendAt}
